@@ -54,7 +54,7 @@ NUMERIC_FUNCS = {
 
 
 def kinds(tier):
-    ks = ["argtype", "rule", "pyexc", "righthand", "nested", "two-components"]
+    ks = ["argtype", "rule", "pyexc", "righthand", "nested", "two-components", "direct"]
     return ks
 
 
@@ -63,7 +63,7 @@ def build(kind, faults, func=None):
     rows = []
     for ln in range(1, NLINES):
         bad = ln in faults
-        if kind in ("argtype", "nested", "two-components", "func"):
+        if kind in ("argtype", "nested", "two-components", "func", "direct"):
             rows.append(["zz" if bad else str(ln), "2", "t"])
         elif kind == "rule":
             # substring()'s 2nd argument must be a positive int: int(#0) < 0 on fault lines
@@ -86,6 +86,9 @@ def build(kind, faults, func=None):
         m = "and(yes(), gt(add(#0, 1), 0))"
     elif kind == "two-components":
         m = "@x = add(#0, 1) @y = subtract(#0, 1)"
+    elif kind == "direct":
+        # the faulting function is itself the match component (its own vote is at stake under validation-mode match)
+        m = "between(#0, 0, 100)"
     elif kind == "func":
         m = NUMERIC_FUNCS[func]
     return rows, m
@@ -108,6 +111,10 @@ def cases(tier):
             for pos in POSITIONS:
                 for vm in VMODES:
                     yield {"policy": pol, "kind": kind, "pos": pos, "vmode": vm, "variant": "standalone", "func": None}
+            # the policy assigned on the instance's config after construction (the public setter)
+            if kind in ("argtype", "nested", "righthand", "direct"):
+                for vm in ("none", "match", "no-print,fail"):
+                    yield {"policy": pol, "kind": kind, "pos": "two", "vmode": vm, "variant": "reassigned", "func": None}
             # no header row: the first offending line is physical line 0
             for pos in ("first", "two"):
                 for vm in ("none", "no-raise,no-stop"):
@@ -161,6 +168,10 @@ def run_case(case, agg):
         c.printers = []
         cap = env.CapturePrinter()
         c.add_printer(cap)
+    elif variant == "reassigned":
+        # constructed under the config.ini policy (raise, collect, stop, fail, print), then re-configured
+        c, cap = env.new_csvpath(None)
+        c.config.csvpath_errors_policy = list(pol)
     else:
         c, cap = env.new_csvpath(pol)
     exc = None
@@ -218,6 +229,9 @@ def run_case(case, agg):
         ln = ev["pln"]
         if ln in faults:
             if eff["match"]:
+                # validation-mode match: an argument mismatch in the only/every component lets the line match
+                if kind in ("argtype", "direct") and not eff["raise"] and not ev.get("exc") and ev["ret"] is not True:
+                    problems.append(("match-mode", f"fault line {ln} did not match under validation-mode match", "matches"))
                 continue
             if ev.get("exc"):
                 continue
